@@ -1208,6 +1208,9 @@ def op_expand(w, s):
     w.put(s["out"], "ttns", res, got, e.tid, {"expanded": True})
     err = float(np.linalg.norm(got - e.shadow))
     sc = float(np.linalg.norm(e.shadow))
+    # the expander is added with weight coef = 1e-10; one branch of the library adds H|psi> without normalising it, so the admixture
+    # scales with ||H||: no property promises more than "about coef x max(1, ||H||)"
+    sc = sc * max(1.0, float(np.linalg.norm(eh.shadow, 2)))
     w.stats.ratio("C12.tree.expand", err, 1e-8 * sc)
     if err > 1e-8 * sc:
         raise V({"C12", "C13"}, "C12.tree.expand.moved_state", f"expand_bond_dimension_general moved the state by {err:.3e} (norm {sc:.3e})")
